@@ -1025,3 +1025,100 @@ mod tests {
     handle.join().unwrap();
   }
 }
+
+// ===================================================================================
+// Verification hook (guarded, add-only): in-process routing through the same
+// process_raw_config -> build_filter_for_appender -> EventProcessor path that
+// `init_from_file` uses, without installing any process-global state.
+// Compiled only with `--cfg excsn_fibre_verif`; re-exported as `fibre_logging::verif`.
+// ===================================================================================
+#[cfg(excsn_fibre_verif)]
+pub mod verif {
+  use super::*;
+  use tracing_core::{callsite, field, subscriber::Interest, Kind, Level, Metadata};
+
+  struct VerifCallsite;
+  impl callsite::Callsite for VerifCallsite {
+    fn set_interest(&self, _interest: Interest) {}
+    fn metadata(&self) -> &Metadata<'_> {
+      unreachable!("verif callsite metadata is never requested")
+    }
+  }
+  static VERIF_CALLSITE: VerifCallsite = VerifCallsite;
+
+  /// Which front end the event notionally came through (they apply different
+  /// pre-filters before `process_event`).
+  #[derive(Clone, Copy, Debug, PartialEq, Eq)]
+  pub enum Front {
+    /// `DispatchLayer`: `max_level_hint` + `enabled` (per-callsite pre-filter).
+    Tracing,
+    /// `LogHandler`: `log::max_level()` derived from the processor's max level.
+    Log,
+  }
+
+  /// Every configured appender replaced by an in-memory event stream.
+  pub struct Router {
+    processor: EventProcessor,
+    streams: Vec<(String, mpsc::BoundedSyncReceiver<LogEvent>)>,
+  }
+
+  impl Router {
+    pub fn from_yaml(yaml: &str) -> Result<Router> {
+      let raw: ConfigRaw = serde_yaml::from_str(yaml).map_err(|e| Error::ConfigParse(e.to_string()))?;
+      let config = process_raw_config(raw)?;
+      let mut actors = Vec::new();
+      let mut streams = Vec::new();
+      for (name, appender) in &config.appenders {
+        let (tx, rx) = mpsc::bounded::<LogEvent>(64);
+        actors.push(AppenderActor {
+          name: name.clone(),
+          filter: build_filter_for_appender(name, &config.loggers),
+          formatter: encoders::new_event_formatter(&appender.encoder),
+          action: ActorAction::SendEvent(tx),
+          overflow: appender.overflow,
+          drops: DropCounter::default(),
+        });
+        streams.push((name.clone(), rx));
+      }
+      streams.sort_by(|a, b| a.0.cmp(&b.0));
+      Ok(Router {
+        processor: EventProcessor::new(actors, None),
+        streams,
+      })
+    }
+
+    /// Emits one event and returns, per appender (sorted by name), how many
+    /// copies it received.
+    pub fn route(&self, front: Front, target: &str, level: Level) -> Vec<(String, usize)> {
+      let metadata = Metadata::new(
+        "verif event",
+        target,
+        level,
+        None,
+        None,
+        None,
+        field::FieldSet::new(&["message"], callsite::Identifier(&VERIF_CALLSITE)),
+        Kind::EVENT,
+      );
+      let pass = match front {
+        Front::Tracing => level <= self.processor.max_level() && self.processor.event_enabled(&metadata),
+        Front::Log => level <= self.processor.max_level(),
+      };
+      if pass {
+        let event = LogEvent::new(level, target, "verif event", Some("m".to_string()));
+        self.processor.process_event(event, &metadata);
+      }
+      self
+        .streams
+        .iter()
+        .map(|(name, rx)| {
+          let mut n = 0;
+          while rx.try_recv().is_ok() {
+            n += 1;
+          }
+          (name.clone(), n)
+        })
+        .collect()
+    }
+  }
+}
